@@ -162,6 +162,12 @@ def step (line : String) : String :=
       | some d, some e => pC08 d e
       | _, _ => "not-json"
   | ["p_c17", _] => "n/a"
+  | ["p_keeps", s0, a, c] => withShape s0 fun s0 => withShape a fun a => withShape c fun c =>
+      let m := merger a c
+      if !isSubset c m then "violated new: " ++ sexp c ++ " not in " ++ sexp m
+      else if isSubset s0 a && !isSubset s0 m then
+        "violated keeps: " ++ sexp s0 ++ " in " ++ sexp a ++ " but not in " ++ sexp m
+      else "ok"
   | "p_c03" :: hs =>
       match docsOfHex hs with
       | none => "not-json"
